@@ -28,6 +28,7 @@ CONSTANTS Base, Count,        \* fixed window b, c
           PreSizes,           \* size of the content found at first build: -1 = no file, 0 = empty file, n
           MaxRec, MaxFaults, MaxCrash, MaxRestart, MaxObst,
           MaxEncFail,         \* encoder failures (the encoder writes part of the record, then returns an error)
+          MaxOverlap,         \* reconfigurations: a successor appender built while its predecessor is alive
           BufFloor,           \* whole units that fit into the 1 KiB BufWriter (2 for 400-byte units, 64 and more for small ones)
           Hist                \* TRUE = carry the operation history (replay emission)
 
@@ -38,13 +39,13 @@ VARIABLES disk,      \* [act |-> entry, arch |-> [Idx -> entry]]
           W,         \* the stream of records written so far (minus by-design truncation)
           acked, nextId,
           fault,     \* armed step fault: [k |-> "none"|"shift"|"final"|"remove", i |-> index]
-          nFaults, nCrash, nRestart, nObst, nEnc,
+          nFaults, nCrash, nRestart, nObst, nEnc, nOverlap,
           ref, refAct,   \* shadow: the same appends with atomic fault-free rotations (newest chunk first)
           rolls,     \* rotations requested in this lifetime (C17)
           res,       \* result of the last append: "ok" | "err" | "none"
           hist
 
-vars == <<disk, writer, pc, cur, ri, after, used, W, acked, nextId, fault, nFaults, nCrash, nRestart, nObst, nEnc,
+vars == <<disk, writer, pc, cur, ri, after, used, W, acked, nextId, fault, nFaults, nCrash, nRestart, nObst, nEnc, nOverlap,
           ref, refAct, rolls, res, hist>>
 
 IsWindow == Roller = "window" /\ Count > 0
@@ -92,7 +93,7 @@ Init ==
   /\ writer = Closed
   /\ pc = "down" /\ cur = [id |-> 0, sz |-> 0] /\ ri = 0 /\ after = "none"
   /\ used = FALSE /\ acked = {} /\ nextId = 1
-  /\ fault = NoFault /\ nFaults = 0 /\ nCrash = 0 /\ nRestart = 0 /\ nObst = 0 /\ nEnc = 0
+  /\ fault = NoFault /\ nFaults = 0 /\ nCrash = 0 /\ nRestart = 0 /\ nObst = 0 /\ nEnc = 0 /\ nOverlap = 0
   /\ ref = <<>> /\ rolls = 0 /\ res = "none"
 
 \* get_writer(): open the active file if the writer is None.  `truncate` says whether this open
@@ -115,19 +116,19 @@ Build ==
   \* truncation at build discards the active content by design; the shadow restarts from the disk (by position)
   /\ IF ~AppendMode THEN refAct' = <<>> /\ ref' = ArchPos ELSE UNCHANGED <<ref, refAct>>
   /\ hist' = Log([op |-> "build", disk |-> Snap'])
-  /\ UNCHANGED <<cur, ri, after, acked, nextId, fault, nFaults, nCrash, nRestart, nObst, nEnc>>
+  /\ UNCHANGED <<cur, ri, after, acked, nextId, fault, nFaults, nCrash, nRestart, nObst, nEnc, nOverlap>>
 
 Start(sz) ==
   /\ pc = "idle" /\ nextId <= MaxRec
   /\ cur' = [id |-> nextId, sz |-> sz] /\ nextId' = nextId + 1
   /\ pc' = "gw1" /\ res' = "none"
-  /\ UNCHANGED <<disk, writer, ri, after, used, W, acked, fault, nFaults, nCrash, nRestart, nObst, nEnc, ref, refAct, rolls, hist>>
+  /\ UNCHANGED <<disk, writer, ri, after, used, W, acked, fault, nFaults, nCrash, nRestart, nObst, nEnc, nOverlap, ref, refAct, rolls, hist>>
 
 GetWriter1 ==
   /\ pc = "gw1"
   /\ OpenEffect(~AppendMode /\ ReopenTruncates)
   /\ pc' = IF Pre THEN "pretrig" ELSE "write"
-  /\ UNCHANGED <<cur, ri, after, used, acked, nextId, fault, nFaults, nCrash, nRestart, nObst, nEnc, ref, refAct, rolls, res, hist>>
+  /\ UNCHANGED <<cur, ri, after, used, acked, nextId, fault, nFaults, nCrash, nRestart, nObst, nEnc, nOverlap, ref, refAct, rolls, res, hist>>
 
 \* the real triggers; the scripted ones ("pre", "post") fire where TLC says
 Fires(len) == CASE Trig = "size"    -> len > Limit
@@ -156,7 +157,7 @@ PreTrig ==
        /\ Decision(f)
        /\ IF f THEN BeginRoll("gw2")
           ELSE pc' = "gw2" /\ UNCHANGED <<writer, after, ri, ref, refAct, rolls, disk, W>>
-  /\ UNCHANGED <<cur, acked, nextId, fault, nFaults, nCrash, nRestart, nObst, nEnc, res>>
+  /\ UNCHANGED <<cur, acked, nextId, fault, nFaults, nCrash, nRestart, nObst, nEnc, nOverlap, res>>
 
 \* the failing step changes nothing on disk
 Fail == /\ pc' = "idle" /\ res' = "err"
@@ -183,13 +184,13 @@ RotStep ==
                IF m.ok THEN /\ disk' = [disk EXCEPT !.act = m.src, !.arch[Base] = m.dst]
                             /\ pc' = after /\ UNCHANGED <<ri, fault, res, hist>>
                ELSE Fail /\ UNCHANGED <<disk, ri, fault>>
-  /\ UNCHANGED <<writer, cur, after, used, W, acked, nextId, nFaults, nCrash, nRestart, nObst, nEnc, ref, refAct, rolls>>
+  /\ UNCHANGED <<writer, cur, after, used, W, acked, nextId, nFaults, nCrash, nRestart, nObst, nEnc, nOverlap, ref, refAct, rolls>>
 
 GetWriter2 ==
   /\ pc = "gw2"
   /\ OpenEffect(~AppendMode /\ ReopenTruncates)
   /\ pc' = "write"
-  /\ UNCHANGED <<cur, ri, after, used, acked, nextId, fault, nFaults, nCrash, nRestart, nObst, nEnc, ref, refAct, rolls, res, hist>>
+  /\ UNCHANGED <<cur, ri, after, used, acked, nextId, fault, nFaults, nCrash, nRestart, nObst, nEnc, nOverlap, ref, refAct, rolls, res, hist>>
 
 \* encode + flush: the record reaches the file whole
 \* (a record that encodes to zero bytes leaves no trace in any file; it still goes through the triggers)
@@ -201,7 +202,7 @@ Write ==
        /\ refAct' = refAct \o new
   /\ writer' = [writer EXCEPT !.len = @ + cur.sz, !.buf = <<>>]
   /\ pc' = IF Pre THEN "ack" ELSE "posttrig"
-  /\ UNCHANGED <<cur, ri, after, used, acked, nextId, fault, nFaults, nCrash, nRestart, nObst, nEnc, ref, rolls, res, hist>>
+  /\ UNCHANGED <<cur, ri, after, used, acked, nextId, fault, nFaults, nCrash, nRestart, nObst, nEnc, nOverlap, ref, rolls, res, hist>>
 
 \* the encoder writes k units of the record in one write call and then fails (a user-defined Encode, or a
 \* formatter's error): append returns the error at once - no flush, no policy.  What was accepted is counted in len.
@@ -224,7 +225,7 @@ EncFail(k) ==
   /\ pc' = "idle" /\ res' = "err"
   /\ hist' = Log([op |-> "append", id |-> cur.id, sz |-> cur.sz, res |-> "encfail", part |-> k,
                   buffered |-> SumSz(writer'.buf), disk |-> Snap'])
-  /\ UNCHANGED <<cur, ri, after, used, acked, nextId, fault, nFaults, nCrash, nRestart, nObst, ref, rolls>>
+  /\ UNCHANGED <<cur, ri, after, used, acked, nextId, fault, nFaults, nCrash, nRestart, nObst, nOverlap, ref, rolls>>
 
 PostTrig ==
   /\ pc = "posttrig"
@@ -232,13 +233,36 @@ PostTrig ==
        /\ Decision(f)
        /\ IF f THEN BeginRoll("ack")
           ELSE pc' = "ack" /\ UNCHANGED <<writer, after, ri, ref, refAct, rolls, disk, W>>
-  /\ UNCHANGED <<cur, used, acked, nextId, fault, nFaults, nCrash, nRestart, nObst, nEnc, res>>
+  /\ UNCHANGED <<cur, used, acked, nextId, fault, nFaults, nCrash, nRestart, nObst, nEnc, nOverlap, res>>
 
 Ack ==
   /\ pc = "ack"
   /\ acked' = acked \cup {cur.id} /\ res' = "ok" /\ pc' = "idle"
   /\ hist' = Log([op |-> "append", id |-> cur.id, sz |-> cur.sz, res |-> "ok", disk |-> Snap])
-  /\ UNCHANGED <<disk, writer, cur, ri, after, used, W, nextId, fault, nFaults, nCrash, nRestart, nObst, nEnc, ref, refAct, rolls>>
+  /\ UNCHANGED <<disk, writer, cur, ri, after, used, W, nextId, fault, nFaults, nCrash, nRestart, nObst, nEnc, nOverlap, ref, refAct, rolls>>
+
+\* A reconfiguration: a second appender for the same path is built while this one is alive (the new configuration
+\* is built first, then swapped in).  This one acknowledges one more record - its trigger does not fire -, is
+\* dropped, and the second one carries on.  The second one opened the file before that record was written: in
+\* append mode it writes at the end of the file as it is at the time of the write, but its size estimate starts from
+\* the size it saw when it opened (the documentation says as much: the estimate "may be inaccurate if another
+\* process has modified the file"), so exact accounting (C06) is claimed for histories without an overlap only.
+Overlap(sz) ==
+  /\ pc = "idle" /\ AppendMode /\ writer.open /\ writer.buf = <<>> /\ fault = NoFault
+  /\ nOverlap < MaxOverlap /\ nextId <= MaxRec /\ sz > 0
+  /\ CASE Trig = "size" -> writer.len + sz <= Limit
+       [] Trig = "startup" -> used
+       [] OTHER -> TRUE
+  /\ LET rec == [id |-> nextId, sz |-> sz] IN
+       /\ disk' = [disk EXCEPT !.act.d = Append(@, rec)]
+       /\ W' = Append(W, rec) /\ refAct' = Append(refAct, rec)
+       /\ acked' = acked \cup {nextId} /\ nextId' = nextId + 1
+       /\ writer' = [open |-> TRUE, len |-> Size(disk.act), buf |-> <<>>]
+       /\ hist' = IF ~Hist THEN hist
+                  ELSE (IF Trig \in {"pre", "post"} THEN Append(hist, [op |-> "decide", fire |-> FALSE]) ELSE hist)
+                       \o <<[op |-> "overlap", id |-> nextId, sz |-> sz, disk |-> Snap']>>
+  /\ used' = FALSE /\ rolls' = 0 /\ nOverlap' = nOverlap + 1 /\ res' = "ok"
+  /\ UNCHANGED <<pc, cur, ri, after, fault, nFaults, nCrash, nRestart, nObst, nEnc, ref>>
 
 ArmFault ==
   /\ pc = "idle" /\ fault = NoFault /\ nFaults < MaxFaults /\ nextId <= MaxRec
@@ -246,7 +270,7 @@ ArmFault ==
                ELSE {[k |-> "remove", i |-> 0]}) :
        fault' = f /\ hist' = Log([op |-> "arm", k |-> f.k, i |-> f.i])
   /\ nFaults' = nFaults + 1
-  /\ UNCHANGED <<disk, writer, pc, cur, ri, after, used, W, acked, nextId, nCrash, nRestart, nObst, nEnc, ref, refAct, rolls, res>>
+  /\ UNCHANGED <<disk, writer, pc, cur, ri, after, used, W, acked, nextId, nCrash, nRestart, nObst, nEnc, nOverlap, ref, refAct, rolls, res>>
 
 \* a non-empty directory appears at / disappears from an archive name
 Obstruct ==
@@ -255,13 +279,13 @@ Obstruct ==
                        /\ disk' = [disk EXCEPT !.arch[x] = Dir]
                        /\ hist' = Log([op |-> "obstruct", i |-> x])
   /\ nObst' = nObst + 1
-  /\ UNCHANGED <<writer, pc, cur, ri, after, used, W, acked, nextId, fault, nFaults, nCrash, nRestart, nEnc, ref, refAct, rolls, res>>
+  /\ UNCHANGED <<writer, pc, cur, ri, after, used, W, acked, nextId, fault, nFaults, nCrash, nRestart, nEnc, nOverlap, ref, refAct, rolls, res>>
 Unobstruct ==
   /\ pc = "idle" /\ IsWindow
   /\ \E x \in Idx : /\ disk.arch[x] = Dir
                     /\ disk' = [disk EXCEPT !.arch[x] = Absent]
                     /\ hist' = Log([op |-> "unobstruct", i |-> x])
-  /\ UNCHANGED <<writer, pc, cur, ri, after, used, W, acked, nextId, fault, nFaults, nCrash, nRestart, nObst, nEnc, ref, refAct, rolls, res>>
+  /\ UNCHANGED <<writer, pc, cur, ri, after, used, W, acked, nextId, fault, nFaults, nCrash, nRestart, nObst, nEnc, nOverlap, ref, refAct, rolls, res>>
 
 \* process death at one of the points a harness can pin down: before a roller step, after the
 \* roller, after the flush, after everything
@@ -272,7 +296,7 @@ Crash ==
   /\ pc' = "down" /\ writer' = Closed /\ fault' = NoFault /\ res' = "none"
   /\ hist' = Log([op |-> "append", id |-> cur.id, sz |-> cur.sz, res |-> "crash",
                   at |-> [pc |-> pc, i |-> IF pc = "rot" THEN ri ELSE 0, pre |-> Pre], disk |-> Snap])
-  /\ UNCHANGED <<disk, cur, ri, after, used, W, acked, nextId, nFaults, nRestart, nObst, nEnc, ref, refAct, rolls>>
+  /\ UNCHANGED <<disk, cur, ri, after, used, W, acked, nextId, nFaults, nRestart, nObst, nEnc, nOverlap, ref, refAct, rolls>>
 
 \* the appender is dropped between appends; Build follows
 Stop ==
@@ -281,10 +305,10 @@ Stop ==
   /\ pc' = "down" /\ writer' = Closed /\ res' = "none"
   /\ disk' = Flushed(disk) /\ W' = W \o writer.buf /\ refAct' = refAct \o writer.buf
   /\ hist' = Log([op |-> "stop"])
-  /\ UNCHANGED <<cur, ri, after, used, acked, nextId, fault, nFaults, nCrash, nObst, nEnc, ref, rolls>>
+  /\ UNCHANGED <<cur, ri, after, used, acked, nextId, fault, nFaults, nCrash, nObst, nEnc, nOverlap, ref, rolls>>
 
 Next == (\E s \in Sizes : Start(s)) \/ Build \/ GetWriter1 \/ PreTrig \/ RotStep \/ GetWriter2 \/ Write
-        \/ PostTrig \/ Ack \/ (\E k \in {0, 1, cur.sz} : EncFail(k)) \/ ArmFault \/ Obstruct \/ Unobstruct \/ Crash \/ Stop
+        \/ PostTrig \/ Ack \/ (\E k \in {0, 1, cur.sz} : EncFail(k)) \/ (\E s \in Sizes : Overlap(s)) \/ ArmFault \/ Obstruct \/ Unobstruct \/ Crash \/ Stop
 Spec == Init /\ [][Next]_vars
 
 Quiescent == pc \in {"idle", "down"}
@@ -307,11 +331,11 @@ Outside == disk.arch[Base + Count].k # "file"
 \* (a pre-processing policy consulted after a failed encoder sees the buffered part as well: the estimate is
 \* "size at open + bytes accepted"; after a successful append, i.e. at every post-processing consultation, the buffer
 \* is empty and the estimate is the on-disk size)
-LenExact == (pc \in {"pretrig", "posttrig"}) => writer.len = Size(disk.act) + SumSz(writer.buf)
+LenExact == (nOverlap = 0 /\ pc \in {"pretrig", "posttrig"}) => writer.len = Size(disk.act) + SumSz(writer.buf)
 PostSeesDisk == pc = "posttrig" => writer.buf = <<>>
 QuietBuffer == (nEnc = 0) => writer.buf = <<>>
 \* after every acknowledged append the active file holds at most Limit units or was just rotated away
-SizeBound == (Trig = "size" /\ pc = "idle" /\ res = "ok" /\ writer.open) => Size(disk.act) <= Limit
+SizeBound == (nOverlap = 0 /\ Trig = "size" /\ pc = "idle" /\ res = "ok" /\ writer.open) => Size(disk.act) <= Limit
 \* ---------------------------------------------------------------- C17
 AtMostOneRoll == Trig = "startup" => rolls <= 1
 TypeOK == pc \in {"down", "idle", "gw1", "pretrig", "rot", "remove", "gw2", "write", "posttrig", "ack"}
